@@ -30,6 +30,9 @@ def setup_process():
     seam.install()
     if REPO not in sys.path[:1]:
         sys.path.insert(0, REPO)
+    first = os.environ.get("VERIF_PATH_FIRST")
+    if first and first not in sys.path[:1]:
+        sys.path.insert(0, first)  # an unrelated directory ahead of the tree (see campaign.ENV_B)
     import shroud  # noqa
     import shroud.main  # noqa
 
